@@ -272,6 +272,13 @@ def apply_step(st: Store, sn: str, i: int, ev: dict, stp: str, res: dict, ctx: d
         elif op == "create":
             st2.create(ev["m"])
             yield out(st2, ("OK",))
+        elif op in ("subscribe", "unsubscribe"):
+            st2.subscribe(ev["m"], op == "subscribe")
+            yield out(st2, ("OK",))
+        elif op == "status":
+            if st2.mb(ev["m"]) is None or st2.mb(ev["m"]).noselect:
+                raise Refused(("NO",), "no such mailbox")
+            yield out(st2, ("OK",))
         else:
             raise ValueError(op)
     except Refused:
